@@ -4,6 +4,7 @@
 //!   mc replay <file>
 
 mod engine;
+mod c03;
 mod subj;
 mod sweep_parse;
 
@@ -27,7 +28,7 @@ pub struct PropDef {
 }
 
 fn registry() -> Vec<PropDef> {
-    vec![sweep_parse::c01(), sweep_parse::c02()]
+    vec![sweep_parse::c01(), sweep_parse::c02(), c03::def()]
 }
 
 fn find(id: &str) -> PropDef {
